@@ -4,6 +4,7 @@ mod alloc;
 mod codec;
 mod endpoint;
 mod fq;
+mod net;
 mod pipe;
 mod world;
 mod tables;
@@ -57,6 +58,22 @@ fn main() {
                     continue;
                 }
                 let r = e.op(&words);
+                writeln!(out, "{}", r).unwrap();
+                out.flush().unwrap();
+            }
+        }
+        "net" => {
+            let mut e = net::Net::new();
+            for line in stdin.lock().lines() {
+                let line = line.unwrap();
+                let words: Vec<&str> = line.split_whitespace().collect();
+                if words.is_empty() || words[0].starts_with('#') {
+                    continue;
+                }
+                let r = match std::panic::catch_unwind(std::panic::AssertUnwindSafe(|| e.op(&words))) {
+                    Ok(r) => r,
+                    Err(_) => "PANIC".to_string(),
+                };
                 writeln!(out, "{}", r).unwrap();
                 out.flush().unwrap();
             }
